@@ -436,26 +436,27 @@ Proof.
   - exists y. split; [|assumption]. apply fold_remn_In. split; [apply ins_In; now right|assumption].
 Qed.
 
-Lemma J_add_heads s hs : J s -> (forall h, In h hs -> h < length (s_g s)) -> hs <> [0] ->
+Lemma J_add_heads s hs : J s -> (forall h, In h hs -> h < length (s_g s)) ->
   J (add_heads s hs).
 Proof.
-  intros Js R NR. unfold add_heads.
+  intros Js R. unfold add_heads.
   destruct hs as [|h [|h2 t]].
   - assumption.
-  - destruct (forallb _ _) eqn:F.
-    + assert (L : h < length (s_g s)) by (apply R; now left).
-      assert (h <> 0) by congruence.
+  - destruct (negb (is_nil (c_parents (getc (s_g s) h))) && forallb _ _) eqn:F.
+    + apply andb_true_iff in F. destruct F as [NE F].
+      assert (L : h < length (s_g s)) by (apply R; now left).
       rewrite forallb_forall in F.
       assert (A : forall p, In p (parents (pg (s_g s)) h) -> In p (v_heads (s_v s))).
       { intros p Hp. rewrite parents_pg in Hp. apply memn_In. now apply F. }
+      assert (NP : parents (pg (s_g s)) h <> []).
+      { rewrite parents_pg. destruct (c_parents (getc (s_g s) h)); [discriminate|discriminate]. }
       unfold view_replace_heads. rewrite <- parents_pg.
       apply J_set_heads; auto.
-      * apply fold_remn_sorted, ins_sorted, Js.
+      * apply fold_remn_sorted, ins_sorted, (j_sorted s Js).
       * intros x Hx. apply fold_remn_In in Hx. destruct Hx as [Hx _].
         apply ins_In in Hx. destruct Hx as [->|Hx]; [assumption|now apply (j_heads s Js)].
       * apply replace_heads_cover. apply (j_wf s Js).
       * intros E. apply replace_heads_norm; auto; try apply (j_wf s Js); try apply (j_sorted s Js); try (apply (j_norm s Js); assumption).
-        apply (j_np s Js). rewrite pg_length. lia.
     + apply J_view_add_head; [assumption|]. apply R. now left.
   - apply J_fold_add_head; assumption.
 Qed.
@@ -465,14 +466,14 @@ Lemma add_heads_fields s hs :
   v_bms (s_v (add_heads s hs)) = v_bms (s_v s) /\ v_wcs (s_v (add_heads s hs)) = v_wcs (s_v s).
 Proof.
   unfold add_heads. destruct hs as [|h [|h2 t]]; [auto| |].
-  - destruct (forallb _ _); cbn; auto.
+  - destruct (_ && _); cbn; auto.
   - cbn [set_view s_g s_pm s_v].
     destruct (fold_add_head_fields (h :: h2 :: t) (s_v s)) as [A [B _]]. auto.
 Qed.
 
-Lemma add_heads_single_in s h : h <> 0 -> wf_dag (pg (s_g s)) -> In h (v_heads (s_v (add_heads s [h]))).
+Lemma add_heads_single_in s h : wf_dag (pg (s_g s)) -> In h (v_heads (s_v (add_heads s [h]))).
 Proof.
-  intros N W. unfold add_heads. destruct (forallb _ _); cbn.
+  intros W. unfold add_heads. destruct (_ && _); cbn.
   - apply fold_remn_In. split; [apply ins_In; now left|].
     intros Hp. rewrite <- parents_pg in Hp. apply W in Hp. lia.
   - apply ins_In. now left.
@@ -530,12 +531,10 @@ Proof.
   assert (J0 : J s0) by now apply J_extend.
   assert (L0 : length (s_g s0) = S (length (s_g s))) by (cbn; rewrite app_length; cbn; lia).
   assert (J1 : J (add_heads s0 [length (s_g s)])).
-  { apply J_add_heads; [assumption| |].
-    - intros h [<-|[]]. lia.
-    - pose proof (j_ne s Js). intros E. injection E. lia. }
+  { apply J_add_heads; [assumption|]. intros h [<-|[]]. lia. }
   destruct (add_heads_fields s0 [length (s_g s)]) as [G1 [P1 _]].
   assert (H1 : In (length (s_g s)) (v_heads (s_v (add_heads s0 [length (s_g s)])))).
-  { apply add_heads_single_in; [pose proof (j_ne s Js); lia|apply (j_wf _ J0)]. }
+  { apply add_heads_single_in. apply (j_wf _ J0). }
   destruct src as [o|]; cbn [fst snd].
   - split; [|split; [reflexivity|split]].
     + apply J_pm_set; [assumption| |].
@@ -604,9 +603,9 @@ Proof.
   set (s1 := maybe_abandon_wc_commit s ws) in *.
   assert (L1 : c < length (s_g s1)) by (unfold s1; now rewrite maybe_abandon_graph).
   assert (J2 : J (add_heads s1 [c])).
-  { apply J_add_heads; [assumption|intros h [<-|[]]; assumption|congruence]. }
+  { apply J_add_heads; [assumption|intros h [<-|[]]; assumption]. }
   apply J_set_wc; [assumption|].
-  apply add_heads_single_in; [assumption|apply (j_wf _ J1)].
+  apply add_heads_single_in. apply (j_wf _ J1).
 Qed.
 
 Lemma J_check_out s ws c s' : J s -> c < length (s_g s) -> check_out s ws c = Some s' -> J s'.
@@ -640,13 +639,12 @@ Proof.
 Qed.
 
 (** * Guards: the ids an operation mentions exist (the implementation would fail to load
-    them otherwise), new parents are non-empty, and add_heads is not asked to add the root
-    commit alone (see [root_fast_path_refuted]). *)
+    them otherwise). *)
 Definition ids_ok (s : state) (l : list nat) : bool := forallb (fun x => x <? length (s_g s)) l.
 Definition basic_op_okb (s : state) (o : op) : bool :=
   match o with
   | ONew ps _ _ => ids_ok s ps
-  | OAddHeads hs => ids_ok s hs && negb (list_nat_eqb hs [0])
+  | OAddHeads hs => ids_ok s hs
   | OSetBookmark _ t => ids_ok s (added_ids t)
   | OEdit _ c => ids_ok s [c]
   | OCheckOut _ c => ids_ok s [c]
@@ -670,9 +668,7 @@ Proof.
   - destruct ps as [|p ps]; [discriminate|]. apply Ok_inj in H. subst s'.
     apply J_write_commit; [assumption|discriminate| |discriminate].
     now apply ids_ok_spec.
-  - injection H as <-. apply andb_true_iff in G. destruct G as [G1 G2].
-    apply J_add_heads; [assumption|now apply ids_ok_spec|].
-    intros E. apply negb_true_iff in G2. apply (proj2 (list_nat_eqb_eq hs [0])) in E. congruence.
+  - injection H as <-. apply J_add_heads; [assumption|now apply ids_ok_spec].
   - injection H as <-. apply J_set_local_bookmark_target; [assumption|now apply ids_ok_spec].
   - destruct (edit s ws c) as [s1|] eqn:E; [|discriminate]. injection H as <-.
     eapply J_edit; [eassumption| |eassumption].
